@@ -284,6 +284,7 @@ INTERPRETED = {
     "re.match": lambda p, s_: __import__("re").match(p, s_),
     ".group": lambda m, *a: m.group(*[int(x) for x in a]),
     "listcomp": lambda elem, it: elem,
+    ".astype": lambda x, t=None: (np.trunc(np.asarray(x, dtype=float)) if "int" in str(t) else x),
     "builtins.all": lambda x: bool(x),
     "builtins.any": lambda x: bool(x),
     "all": lambda x: bool(x),
